@@ -97,7 +97,7 @@ CHECKS = {
  "C14": dict(
    engine="E3-scheduler", category="model_checking", ref="§3 C14, §1 E3",
    technique="stateless deviation-bounded DFS over thread schedules of the real code under a controlled scheduler (futex hand-off invisible to the race detector), -race build of a source-instrumented copy; per-schedule result, snapshot, deadlock and race-report oracles",
-   text="Nine small harness bodies share one CharRecipe, WLRecipe, WordList, a constructed separator function and the package-level presets between 2-3 threads. Every schedule with at most 1 (quick) / 2 (thorough, two-thread scenarios) deviations from the default schedule, at statement granularity in package spg and lock granularity in golang-set, is executed. Because hand-offs create no happens-before edge, the race detector checks every explored schedule; results must equal each call's sequential result on its own random stream and shared values must be unchanged. 28 scenarios (including recipes with overlapping required sets and runs under MaxTrials = 10 / 1000); every schedule starts from freshly built shared values and each scenario runs first (cold package state) in one worker.",
+   text="Nine small harness bodies share one CharRecipe, WLRecipe, WordList, a constructed separator function and the package-level presets between 2-3 threads. Every schedule with at most 1 (quick) / 2 (thorough, two-thread scenarios) deviations from the default schedule, at statement granularity in package spg and lock granularity in golang-set, is executed. Because hand-offs create no happens-before edge, the race detector checks every explored schedule; results must equal each call's sequential result on its own random stream and shared values must be unchanged. 30 scenarios (including recipes with overlapping or unsorted required sets, separator functions with exclusions and runs under MaxTrials = 10 / 1000) and a battery of every unordered pair of the call alphabet on the default schedule (the hand-off is invisible to the race detector, so one schedule shows any state two calls share unsynchronised); every schedule starts from freshly built shared values and each scenario runs first (cold package state) in one worker.",
    note="Bounded deviations (preemptions and non-default thread choices both cost 1); trusts the Go race detector for raw access pairs; helper goroutines of golang-set's Iter() run free; Go memory-model effects beyond race reports are not modelled."),
 }
 
